@@ -815,15 +815,22 @@ def run_accuracy(ctx, results):
     if not lem:
         return
     out = core.coq_lemmas(os.path.join(ctx.work, "acc"), PRE_ACC + ACC_TAC, lem, shard=3, tag="acc", timeout=900)
-    nok = 0
-    for (case, res, conj), (ok, msg) in zip(owner, out):
+    # attribute the failed ones: one lemma per quantity, all in ONE parallel batch (also the fallback when a combined
+    # lemma ran out of time on a loaded machine: the conjunction is proved as soon as every conjunct is)
+    failed = [i for i, (ok, _m) in enumerate(out) if not ok]
+    single_of = {}
+    if failed:
+        flat = [(i, q, st) for i in failed for (q, st) in owner[i][2]]
+        single = core.coq_lemmas(os.path.join(ctx.work, "acc1"), PRE_ACC + ACC_TAC,
+                                 [(st, "c11_unf; c11_ints; c11_fin.") for _i, _q, st in flat], shard=4, tag="acc1", timeout=900)
+        for (i, q, _st), (k, m) in zip(flat, single):
+            single_of.setdefault(i, []).append((q, k, m))
+    nok, reported = 0, set()
+    for i, ((case, res, conj), (ok, msg)) in enumerate(zip(owner, out)):
+        bad, msgs = [], []
         if not ok:
-            # attribute: one lemma per quantity (also the fallback when the combined lemma ran out of time on a
-            # loaded machine: the conjunction is proved as soon as every conjunct is)
-            single = core.coq_lemmas(os.path.join(ctx.work, "acc1"), PRE_ACC + ACC_TAC,
-                                     [(s, "c11_unf; c11_ints; c11_fin.") for _, s in conj], shard=3, tag="acc1", timeout=900)
-            bad = [q for (q, _), (k, _m) in zip(conj, single) if not k]
-            msgs = [m for (k, m) in single if not k]
+            bad = [q for q, k, _m in single_of[i] if not k]
+            msgs = [m for _q, k, m in single_of[i] if not k]
             ok = not bad
             if ok:
                 ctx.count("accuracy:proved-per-quantity-after-combined-lemma-failed")
@@ -832,6 +839,10 @@ def run_accuracy(ctx, results):
             nok += 1
             continue
         ctx.obligation("documented accuracy %r" % (case,), False, msgs[0] if msgs else msg)
+        key = tuple(bad)
+        if key in reported:
+            continue
+        reported.add(key)
         ctx.violation("documented accuracy (1e-6 at z<=1, 1e-3 at z<=5, concordance-like) not certified for %s" % (bad or "?"),
                       {"kind": "failing-input", "entry": "accuracy", "case": case, "impl_output": res, "quantities": bad,
                        "msg": (msgs[0] if msgs else msg)[-1200:], "class": None}, found_input=True)
